@@ -136,7 +136,17 @@ def main(argv=None):
             for p in sorted(corpus_dir.glob('*.json')):
                 cases.append(json.loads(p.read_text()))
         n_corpus = len(cases)
-        cases += list(mod.generate(rng, tier))
+        from harness import translate_src
+
+        fallbacks = translate_src.fallbacks_for(prop)
+        gen_tier = tier
+        if fallbacks:
+            # the source left the translatable fragment at a site this property relies on: the 'for all integers' tie is
+            # gone for that site, so the sampled tie has to carry more - search with the thorough generators
+            gen_tier = 'thorough'
+            for k, v in fallbacks.items():
+                print(f'NOTE {prop}: translated site {k} fell back to the hand-written model ({v}); correspondence searched with the thorough generators')
+        cases += list(mod.generate(rng, gen_tier))
     outcomes = []
     disagreements = []
     viols = []
